@@ -3,6 +3,7 @@
 package index
 
 import (
+	"io"
 	"github.com/marekgalovic/anndb/index/space"
 	"github.com/marekgalovic/anndb/math"
 	uuid "github.com/satori/go.uuid"
@@ -96,3 +97,5 @@ func (r *verifRef) count() int {
 	}
 	return n
 }
+
+var verifEOF = io.EOF
